@@ -133,8 +133,9 @@ CLAUSES = {
 ENCODED = [U.binary_to_gray, U.gray_to_binary, U.binary_array_to_gray, U.gray_array_to_binary]
 STUBS = [
     "torch tensor model for the array forms (kverif.gray.STensor): a 1-D integer tensor is a list of symbolic elements "
-    "with dtype/device; only detach, cpu, numel, long, to, iteration, item read/store, torch.zeros_like and torch.tensor "
-    "are modelled; validated against the real functions on concrete tensors in every run",
+    "with dtype/device; modelled: detach, cpu, clone, numel, long, to, iteration, item read/store, element-wise ^ & | >> << + - "
+    "with int or tensor operands, comparisons (boolean tensor), ~, any/all, bool(), torch.where, torch.tensor, "
+    "torch.zeros_like/ones_like/full_like; anything else is NotEncodable; validated against the real functions on concrete tensors in every run",
 ]
 ASSUMPTIONS = [
     "Python ints are modelled as signed 64-bit vectors with no-overflow side conditions on every << + - * (a violated side condition is a harness error)",
@@ -151,7 +152,12 @@ BOUNDS = {
 # ------------------------------------------------------------------------------------------------
 # torch tensor stub for the array forms
 # ------------------------------------------------------------------------------------------------
+def _elem(x):
+    return x.v if isinstance(x, STScalar) else x
+
+
 class STScalar:
+    """0-d tensor (element of an STensor, result of .any()/.all())"""
     e2_symbolic = True
     e2_stub = True
 
@@ -159,7 +165,17 @@ class STScalar:
         self.v = v
 
     def e2_int(self, I):
+        if isinstance(self.v, (e2.SB, bool)):
+            return e2.SI(I.bv(self.v)) if isinstance(self.v, e2.SB) else int(self.v)
         return self.v
+
+    def e2_bool(self, I):
+        v = self.v
+        if isinstance(v, e2.SI):
+            return e2.SB(v.e != 0)
+        if isinstance(v, e2.SB):
+            return v
+        return bool(v)
 
     def e2_isinstance(self, cls):
         return issubclass(torch.Tensor, cls) if isinstance(cls, type) else False
@@ -167,12 +183,23 @@ class STScalar:
     def e2_concretize(self, I, model):
         return I.concretize(self.v, model)
 
+    def e2_binop(self, I, op, other):
+        return STScalar(I.binop(op, self.v, _elem(other)))
+
+    def e2_rbinop(self, I, op, other):
+        return STScalar(I.binop(op, _elem(other), self.v))
+
+    def e2_compare(self, I, op, other):
+        return STScalar(I.cmpop(op, self.v, _elem(other)))
+
     def item(self):
         return self.v
 
 
 class STensor:
-    """1-D integer tensor whose elements are symbolic ints"""
+    """1-D tensor whose elements are symbolic ints (dtype int64) or symbolic booleans (dtype bool).
+    Element-wise expressions (^ & | >> << + -, comparisons, torch.where, *_like, any/all) are modelled on the
+    elements with the interpreter's own int/bool semantics; int64 == Python int inside the 64-bit side conditions."""
     e2_symbolic = True
     e2_stub = True
 
@@ -197,10 +224,15 @@ class STensor:
     def numel(self):
         return len(self.elems)
 
+    def dim(self):
+        return 1
+
     def __len__(self):
         return len(self.elems)
 
     def long(self):
+        if self._dtype == torch.bool:
+            raise e2.NotEncodable("tensor stub: bool -> int64 conversion")
         return STensor(self.elems, torch.int64, self._device)
 
     def to(self, *args, dtype=None, device=None):
@@ -210,12 +242,90 @@ class STensor:
             else:
                 device = a
         dtype = dtype or self._dtype
-        if dtype not in (torch.int64,):
-            raise e2.NotEncodable(f"tensor stub: conversion to {dtype}")
+        if dtype != self._dtype:
+            raise e2.NotEncodable(f"tensor stub: conversion {self._dtype} -> {dtype}")
         return STensor(self.elems, dtype, torch.device(device) if device is not None else self._device)
 
     def __iter__(self):
         return iter([STScalar(e) for e in self.elems])
+
+    # -- element-wise arithmetic -------------------------------------------------------------------
+    def _other(self, other):
+        if isinstance(other, STensor):
+            if len(other.elems) == len(self.elems):
+                return list(other.elems)
+            if len(other.elems) == 1:
+                return [other.elems[0]] * len(self.elems)
+            raise e2._TargetRaise("RuntimeError")
+        if isinstance(other, torch.Tensor):
+            vals = other.reshape(-1).tolist()
+            if len(vals) == 1:
+                vals = vals * len(self.elems)
+            if len(vals) != len(self.elems):
+                raise e2._TargetRaise("RuntimeError")
+            return vals
+        other = _elem(other)
+        if isinstance(other, (int, bool, e2.SI, e2.SB)):
+            return [other] * len(self.elems)
+        raise e2.NotEncodable(f"tensor stub: operand of type {type(other).__name__}")
+
+    def _res_dtype(self, op, other):
+        both_bool = self._dtype == torch.bool and (not isinstance(other, STensor) or other._dtype == torch.bool) \
+            and not (isinstance(_elem(other), (int, e2.SI)) and not isinstance(_elem(other), bool))
+        if both_bool and op in (ast.BitXor, ast.BitAnd, ast.BitOr):
+            return torch.bool
+        if self._dtype == torch.bool or (isinstance(other, STensor) and other._dtype == torch.bool):
+            raise e2.NotEncodable("tensor stub: mixed bool/int arithmetic")
+        return torch.int64
+
+    def e2_binop(self, I, op, other):
+        if op not in (ast.BitXor, ast.BitAnd, ast.BitOr, ast.RShift, ast.LShift, ast.Add, ast.Sub):
+            raise e2.NotEncodable(f"tensor stub: operator {op.__name__}")
+        dt = self._res_dtype(op, other)
+        return STensor([I.binop(op, a, b) for a, b in zip(self.elems, self._other(other))], dt, self._device)
+
+    def e2_rbinop(self, I, op, other):
+        if op not in (ast.BitXor, ast.BitAnd, ast.BitOr, ast.RShift, ast.LShift, ast.Add, ast.Sub):
+            raise e2.NotEncodable(f"tensor stub: operator {op.__name__}")
+        dt = self._res_dtype(op, other)
+        return STensor([I.binop(op, b, a) for a, b in zip(self.elems, self._other(other))], dt, self._device)
+
+    def e2_compare(self, I, op, other):
+        return STensor([I.cmpop(op, a, b) for a, b in zip(self.elems, self._other(other))], torch.bool, self._device)
+
+    def e2_invert(self, I):
+        if self._dtype == torch.bool:
+            return STensor([e2.SB(z3.Not(I.bo(a))) if e2.is_sym(a) else (not a) for a in self.elems], torch.bool, self._device)
+        return STensor([I.mk_si(~I.bv(a)) if e2.is_sym(a) else ~a for a in self.elems], self._dtype, self._device)
+
+    def _truths(self):
+        I = _CUR[0]
+        out = []
+        for a in self.elems:
+            if isinstance(a, e2.SB):
+                out.append(a.e)
+            elif isinstance(a, e2.SI):
+                out.append(a.e != 0)
+            else:
+                out.append(z3.BoolVal(bool(a)))
+        return out
+
+    def any(self):
+        ts = self._truths()
+        if all(z3.is_true(t) or z3.is_false(t) for t in ts):
+            return STScalar(any(z3.is_true(t) for t in ts))
+        return STScalar(e2.SB(z3.Or(ts)))
+
+    def all(self):
+        ts = self._truths()
+        if all(z3.is_true(t) or z3.is_false(t) for t in ts):
+            return STScalar(all(z3.is_true(t) for t in ts))
+        return STScalar(e2.SB(z3.And(ts)))
+
+    def e2_bool(self, I):
+        if len(self.elems) != 1:
+            raise e2._TargetRaise("RuntimeError")     # Boolean value of Tensor with more than one value is ambiguous
+        return STScalar(self.elems[0]).e2_bool(I)
 
     def e2_getitem(self, I, i):
         if not isinstance(i, int):
@@ -223,8 +333,7 @@ class STensor:
         return STScalar(self.elems[i])
 
     def e2_store(self, I, i, v, g):
-        if isinstance(v, STScalar):
-            v = v.v
+        v = _elem(v)
         if not isinstance(v, (int, e2.SI)) or isinstance(v, bool):
             raise e2.NotEncodable("tensor stub: store of a non-int")
         if isinstance(v, e2.SI):
@@ -242,6 +351,45 @@ class STensor:
         return torch.tensor([I.concretize(e, model) for e in self.elems], dtype=self._dtype)
 
 
+_CUR = [None]       # interpreter of the running work item (the tensor model's any()/all() need none of its state)
+
+
+def _like(val):
+    def stub(I, args, kwargs):
+        t = args[0]
+        if isinstance(t, STensor):
+            v = args[1] if val is None else val
+            dt = kwargs.get("dtype") or t.dtype
+            if dt == torch.bool:
+                return STensor([bool(v)] * len(t.elems), dt, t.device)
+            return STensor([_elem(v)] * len(t.elems), dt, t.device)
+        fn = {None: torch.full_like, 0: torch.zeros_like, 1: torch.ones_like}[val]
+        return fn(*args, **kwargs)
+    return stub
+
+
+def _stub_where(I, args, kwargs):
+    if len(args) != 3:
+        raise e2.NotEncodable("tensor stub: torch.where with one argument")
+    c, a, b = args
+    if not any(isinstance(x, (STensor, STScalar)) for x in args):
+        return torch.where(*args, **kwargs)
+    ref = next(x for x in args if isinstance(x, STensor))
+    cs = ref._other(c) if not isinstance(c, STensor) else c.elems
+    as_ = ref._other(a) if not isinstance(a, STensor) else a.elems
+    bs = ref._other(b) if not isinstance(b, STensor) else b.elems
+    out = []
+    for ci, ai, bi in zip(cs, as_, bs):
+        if isinstance(ci, e2.SB):
+            out.append(I.merge(ci.e, ai, bi))
+        elif isinstance(ci, e2.SI):
+            out.append(I.merge(ci.e != 0, ai, bi))
+        else:
+            out.append(ai if ci else bi)
+    dt = a.dtype if isinstance(a, STensor) else (b.dtype if isinstance(b, STensor) else torch.int64)
+    return STensor(out, dt, ref.device)
+
+
 def _stub_tensor(I, args, kwargs):
     data = args[0]
     if not e2.sym_deep(data):
@@ -250,13 +398,6 @@ def _stub_tensor(I, args, kwargs):
     if dtype != torch.int64 or not isinstance(data, (list, tuple)):
         raise e2.NotEncodable("tensor stub: torch.tensor of symbolic data needs a flat list and dtype int64")
     return STensor(list(data), dtype, kwargs.get("device"))
-
-
-def _stub_zeros_like(I, args, kwargs):
-    t = args[0]
-    if isinstance(t, STensor):
-        return STensor([0] * len(t.elems), t.dtype, t.device)
-    return torch.zeros_like(*args, **kwargs)
 
 
 def make_interp(mutants=None, merged=False):
@@ -268,7 +409,8 @@ def make_interp(mutants=None, merged=False):
     z3's rewriter decides at once, whereas the merged form leaves a 60-bit xor chain to the SAT solver."""
     return e2.Interp(W, classes=(), default_loop="merge" if merged else "fork", max_unroll=70,
                      unroll={"gray_to_binary": NB + 1} if merged else None, fork_on_return=not merged,
-                     fn_stubs={torch.tensor: _stub_tensor, torch.zeros_like: _stub_zeros_like}, mutants=mutants)
+                     fn_stubs={torch.tensor: _stub_tensor, torch.zeros_like: _like(0), torch.ones_like: _like(1),
+                               torch.full_like: _like(None), torch.where: _stub_where}, mutants=mutants)
 
 
 # ------------------------------------------------------------------------------------------------
